@@ -332,7 +332,7 @@ func CustomPass(t TestSpec, val any) bool {
 	if t.Mod <= 0 {
 		return true
 	}
-	return int64(fnv64(Canon(derefAll(val)))%uint64(t.Mod)) != t.Rem
+	return int64(fnv64(addrRx.ReplaceAllString(Canon(derefAll(val)), "0xADDR"))%uint64(t.Mod)) != t.Rem
 }
 
 func (e *Engine) record(n *Node, kind string, idx int, arg any, ctx z.Ctx, wantAddr bool) *OpRec {
@@ -343,7 +343,7 @@ func (e *Engine) record(n *Node, kind string, idx int, arg any, ctx z.Ctx, wantA
 	if rec == nil {
 		return nil
 	}
-	c := Call{Node: n.ID, Kind: kind, Idx: idx, ArgT: fmt.Sprintf("%T", arg), Arg: Canon(derefAll(arg)), Addr: -1}
+	c := Call{Node: n.ID, Kind: kind, Idx: idx, ArgT: fmt.Sprintf("%T", arg), Arg: addrRx.ReplaceAllString(Canon(derefAll(arg)), "0xADDR"), Addr: -1}
 	if wantAddr {
 		c.Addr = 0
 		rv := reflect.ValueOf(arg)
